@@ -12,4 +12,5 @@ def run(ctx, rep):
     objmodel.rule_host_callable_surface(ctx, rep, "C03-R5")
     objmodel.rule_internal_iterators(ctx, rep, "C03-R6")
     objmodel.rule_optional_groups_normalised(ctx, rep, "C03-R7")
+    objmodel.rule_converters_convert_members(ctx, rep, "C03-R8")
     rep.undecided += ["that every value computed by host arithmetic lies in the JavaScript value domain for all inputs (e.g. complex results of **): a value property"]
